@@ -4,7 +4,7 @@ import ast
 from ..astutil import (AnalysisError, dotted, calls_in, last_attr, receiver, norm, is_name, walk_local, is_self_attr,
                        loc, short, parent_map)
 from ..cfg import is_flow, path_str
-from .c07 import pool_parts, call_nodes, pool_names, check_enqueue_callers
+from .c07 import pool_parts, call_nodes, pool_names, check_enqueue_callers, check_single_append
 
 EXPLANATION = (
     'Static decision of the failure reporting of Pool.run. R1: the only `raise PoolError` of run is dominated by `not ok`, '
@@ -79,6 +79,7 @@ def run(ctx):
               where=loc(run_f, odd[0][0]) if odd else None)
 
     # ---------------------------------------------------------------- R2 partial results
+    check_single_append(ctx, run_f, cl, N, 'R2')
     pe = [st for _, st in all_raises if _ is run_f]
     ok = False
     if pe and isinstance(pe[0].exc, ast.Call):
